@@ -170,7 +170,7 @@ def run(ctx) -> int:
     # fixed corpus, run first: streams whose level fields are NOT consistent with their nesting
     # (fragments_join is what recomputes inline levels; with it off, nested pairs share a level), and
     # deep well-levelled ones - the tree builder must pair by nesting there
-    fixed = [(c, d) for c in TREE_CONFIGS for d in TREE_DOCS]
+    fixed = [(c, d) for c in TREE_CONFIGS for d in TREE_DOCS] + [(configs.STANDARD[ci], d) for d in docs.corner_docs() for ci in (2, 4)]
     for k in range(-len(fixed), n):
         if k < 0:
             cfg, src = fixed[k + len(fixed)]
